@@ -269,13 +269,14 @@ mtext("C06",
       "DESIGN.md 4.C06")
 
 check("C11", "exploration",
-      [dict(world="sort", mode=11, variants={"rel": 0.7, "asan": 0.3}, quick=60000, thorough=5000000)],
+      [dict(world="sort", mode=11, variants={"rel": 0.7, "asan": 0.3}, quick=60000, thorough=5000000),
+       dict(world="vector", mode=11, variants={"rel": 0.5, "asan": 0.5}, quick=30000, thorough=1500000)],
       "one evaluation = one seeded plan: 1-3 rounds of {fill a raw array (patterns: random over 1..3000 values, sorted, reversed, constant, two-valued, organ-pipe, saw-tooth; lengths 0..8 / 0..64 / 0..4096), linear finds, optional reverse, "
       "1-2 sorts with a seeded selector (four named algorithms and four out-of-range values) and either cstl_swap or a checking swap callback, binary searches and finds on the result}; rand() is the simulator's (uniform, or bounded adversarial streaks of pivot-last values); "
       "distinct = distinct plan hash; non-trivial = the last array had >= 2 elements",
       ["src/array.c (raw array functions)", "include/cstl/common.h (cstl_swap)"],
       stubs=["comparison function: in 1/12 of the runs one sort is made against McIlroy's lazily deciding adversary (legal, consistent, forces the deepest recursion)", "rand() (seeded stream; sticky mode repeats 0, RAND_MAX, 720719, small integers in streaks of at most 8 draws followed by a uniform draw)"],
-      required_probes=["selector_out_of_range", "rand_calls", "custom_swap_checked", "probe_present", "probe_absent", "single_element_probe", "reverse", "large_array", "few_distinct_values", "adversary_sort", "adversary_forced_quadratic"],
+      required_probes=["selector_out_of_range", "rand_calls", "custom_swap_checked", "probe_present", "probe_absent", "single_element_probe", "reverse", "large_array", "few_distinct_values", "adversary_sort", "adversary_forced_quadratic", "vector_probe_present", "vector_probe_absent", "vector_sort_checked_swap"],
       assumptions=["apart from the pivot stream and the callbacks this is input generation; the exhaustive small-alphabet enumeration named in the property's quantifier is NOT done",
                    "an unbounded adversarial rand() (constant forever) makes the randomised variant recurse without bound; excluded as outside rand()'s contract"])
 mtext("C11",
@@ -346,3 +347,25 @@ mtext("C20",
       "trusted: abort trap, sim-heap event log; the cell matrix is swept by seeded sampling (fired counts per cell in the evidence), not by construction",
       "deterministic simulation with fault injection: stray bitwise copies at a seeded point of a seeded history, fail-stop + no-release oracle",
       "DESIGN.md 4.C20")
+
+# ------------------------------------------------------------- later additions to the workloads
+# (each was added because an independently seeded change showed the workload did not reach a corner: DESIGN.md 11.6)
+ADDENDA = {
+    "C01": "Also: elements carry two sets of link members and trees are declared over either; trees are swapped with themselves; comparison callbacks consult a second tree and return results of varying magnitude (+-1 .. INT_MIN/INT_MAX, only the sign is meaningful); visit callbacks walk the same tree in the opposite direction and take its height.",
+    "C02": "Also: a huge-tree batch (131 072 .. 262 144 ascending/descending/random inserts, height up to 34) with a full structural audit, a quarter erased, and the height bound re-checked; hinted inserts with parents reported by find.",
+    "C07": "Also: a huge-heap batch that grows heaps to 524 290 elements (past every power of two up to 2^19) with the same audit at checkpoints; heaps declared over different node members; self-swaps; comparator magnitude varied.",
+    "C08": "Also: comparison functions that consult a second map; find with the iterator's own cells as probe; erase_iterator after the caller released the key object; maps keyed by integers cast to pointers (key 0 = NULL, NULL values).",
+    "C11": "Also: one sort in 1/12 of the runs is made against McIlroy's adversary or its mirror image (a legal comparison function that decides values lazily so that every pivot is extreme: deepest recursion, longest pending list); a second batch drives cstl_vector_sort/__cstl_vector_sort (every selector, checking swap callback), cstl_vector_search, cstl_vector_find and __cstl_vector_reverse on vectors against the same oracles; comparison callbacks that binary-search another array.",
+    "C12": "Also: two sets of link members per element (lists over either, swapped with each other and with themselves), comparison callbacks that find in / sort another list, and a huge-list batch (2^12 .. 2^20+5000 elements: build, sort, verify, reverse, clear).",
+    "C13": "Also: two sets of link members per element, comparison callbacks that sort another list in the opposite order from inside a sort, and a huge-list batch (2^12 .. 2^20+5000 elements).",
+    "C15": "Also: clear of red-black trees taller than 32 levels (huge-tree batch), of integer-keyed maps holding the NULL key with a NULL value, and of huge lists.",
+    "C17": "Also: out-of-range hash values that are congruent to a valid bucket (v+m, v+2^32*m): silently wrapping them is a violation; range samples of the multiplicative built-in include Fibonacci numbers and their neighbours.",
+    "C20": "Also: the stray object is placed in either position of every two-operand call, and in-place slice/unslice (source and destination the same stray object).",
+    "C09": "Also: sizes around 2^31, 2^32 and 2^33 divided by the element size, vectors of ~70 000 elements, self-swaps.",
+    "C10": "Also: bytes >= 0x80 in the narrow alphabet and values beyond one byte in the wide one, positions/counts around 2^31..2^33, strings of ~70 000 characters, self-swaps.",
+    "C14": "Also: the same memory described twice by set(), 'virtual' external buffers of 2^31..2^33 elements (address arithmetic only, compared in 128 bits), slices beginning beyond 2^31.",
+    "C05": "Also: 255 .. 66 000 owners (and half as many weak references) of one allocation; self-swaps; allocation sizes that cannot be satisfied.",
+    "C03": "Also: bucket counts around 2^28 and 2^32 (byte-count overflow), elements with two node members and tables declared over either, container objects initialised on junk-filled memory.",
+}
+for _p, _t in ADDENDA.items():
+    MANIFEST_TEXT[_p]["text"] += " " + _t
